@@ -19,10 +19,10 @@ def replay(ck, cmd, rows, label, extra_args=(), race=False, shards=1, env=None):
     path = os.path.join(d, label + ".ndjson")
     vlib.write_ndjson(path, rows)
     res = vlib.vh_json([cmd, path] + list(extra_args), race=race, env=env)
-    return absorb(ck, res, label)
+    return absorb(ck, res, label, cmd=[cmd] + list(extra_args))
 
 
-def absorb(ck, res, label):
+def absorb(ck, res, label, cmd=None):
     ck.add("evaluations", res["evaluations"])
     ck.add("distinct_nontrivial", res.get("distinct", 0))
     ck.cov.setdefault("parts", {})[label] = {"evaluations": res["evaluations"], "distinct": res.get("distinct", 0),
@@ -32,5 +32,114 @@ def absorb(ck, res, label):
     for s in (res.get("samples") or [])[:2]:
         ck.sample({label: s})
     for m in res.get("mismatches") or []:
-        ck.disagreement(m["sig"], {"part": label, **(m["detail"] if isinstance(m["detail"], dict) else {"detail": m["detail"]})})
+        det = {"part": label, **(m["detail"] if isinstance(m["detail"], dict) else {"detail": m["detail"]})}
+        if cmd and m.get("vec") is not None:
+            det["replay"] = {"cmd": cmd, "vec": m["vec"]}
+        ck.disagreement(m["sig"], det)
     return res
+
+
+def validate_traces(ck, module, cfg, trace_path, label, is_reset, timeout=900, max_rejects=5):
+    """I->S: TLC checks that the recorded ndjson trace file (many traces, each starting at a line for which
+    is_reset(rec) holds) is a behaviour of the trace specification, evaluating the spec's invariants after
+    every event.  A rejected trace is re-validated alone (fresh TLC process); only then is it a disagreement.
+    Returns the number of traces accepted."""
+    lines = [l for l in open(trace_path).read().splitlines() if l.strip()]
+    # split into traces
+    traces, cur = [], []
+    for ln in lines:
+        rec = json.loads(ln)
+        if is_reset(rec) and cur:
+            traces.append(cur)
+            cur = []
+        cur.append(ln)
+    if cur:
+        traces.append(cur)
+    accepted = 0
+    pending = traces
+    rejects = 0
+    d = vlib.workdir("traces")
+    n = 0
+    while pending:
+        n += 1
+        path = os.path.join(d, "%s-%d.ndjson" % (label, n))
+        with open(path, "w") as fh:
+            fh.write("\n".join(l for t in pending for l in t) + "\n")
+        res = vlib.tlc(module, cfg, workers=1, timeout=timeout, env={"TRACE_FILE": path})
+        ck.add_tlc(res, "%s/validate#%d" % (module, n))
+        rej = [r for r in res.emitted() if "reject" in r]
+        if res.ok and not rej:
+            accepted += len(pending)
+            break
+        if res.invariant and not rej:
+            # an invariant of the spec failed on a state reached by following the implementation's trace
+            rej = [{"reject": None, "invariant": res.invariant}]
+        if not rej:
+            raise vlib.Broken("trace validation of %s ended without verdict:\n%s" % (label, res.out[-3000:]))
+        # locate the offending trace
+        if rej[0]["reject"] is None:
+            # find by bisection: validate traces one by one (rare path)
+            bad_idx = None
+            for i, t in enumerate(pending):
+                p1 = os.path.join(d, "%s-one.ndjson" % label)
+                open(p1, "w").write("\n".join(t) + "\n")
+                r1 = vlib.tlc(module, cfg, workers=1, timeout=timeout, env={"TRACE_FILE": p1})
+                if not r1.ok:
+                    bad_idx = i
+                    break
+            if bad_idx is None:
+                raise vlib.Broken("invariant %s failed on the concatenation but on no single trace" % res.invariant)
+            lineno, offending = None, {"invariant": res.invariant}
+        else:
+            lineno = rej[0]["reject"]
+            offending = rej[0].get("line")
+            acc, bad_idx = 0, None
+            for i, t in enumerate(pending):
+                if lineno <= acc + len(t):
+                    bad_idx = i
+                    break
+                acc += len(t)
+            if bad_idx is None:
+                # all lines consumed but the last trace did not complete
+                bad_idx = len(pending) - 1
+        bad = pending[bad_idx]
+        accepted += bad_idx
+        # reproduce alone in a fresh process
+        p1 = os.path.join(d, "%s-repro.ndjson" % label)
+        open(p1, "w").write("\n".join(bad) + "\n")
+        r1 = vlib.tlc(module, cfg, workers=1, timeout=timeout, env={"TRACE_FILE": p1})
+        if r1.ok and not [r for r in r1.emitted() if "reject" in r]:
+            raise vlib.Broken("trace rejected in concatenation but accepted alone (%s)" % label)
+        first = json.loads(bad[0])
+        ck.disagreement("trace:%s:%s" % (label, json.dumps(first, sort_keys=True)[:300]),
+                        {"part": label + " (trace validation)", "rejected_event": offending,
+                         "trace_head": [json.loads(x) for x in bad[:3]], "trace_len": len(bad),
+                         "trace": [json.loads(x) for x in bad] if len(bad) < 80 else None})
+        rejects += 1
+        pending = pending[bad_idx + 1:]
+        if rejects >= max_rejects:
+            break
+    ck.add("traces_validated_against_impl", accepted + rejects)
+    ck.cov.setdefault("parts", {})[label + "/traces"] = {"traces": len(traces), "events": len(lines),
+                                                         "accepted": accepted, "rejected": rejects}
+    return accepted
+
+
+def replay_file(path):
+    """bin/check Cxx quick --replay <violation file>: re-run the single recorded vector against /repo."""
+    v = json.load(open(path))
+    rp = (v.get("detail") or {}).get("replay")
+    if not rp:
+        print("this violation was found by trace validation; re-run the check to reproduce it")
+        print(json.dumps(v, indent=1)[:4000])
+        return 1
+    d = vlib.workdir("replay")
+    p = os.path.join(d, "one.ndjson")
+    vlib.write_ndjson(p, [rp["vec"]])
+    res = vlib.vh_json([rp["cmd"][0], p] + rp["cmd"][1:])
+    for m in res.get("mismatches") or []:
+        print("VIOLATION property=%s replay=%s" % (v.get("property"), path))
+        print(json.dumps(m["detail"], indent=1)[:4000])
+        return 1
+    print("no mismatch on the current tree for this vector")
+    return 0
